@@ -16,7 +16,7 @@ from mitxgraders.exceptions import MITxError
 
 PROPERTY = 'C08'
 RULE = ('every ordered tuple of 1..4 [quick 3] distinct alternatives from an 8-entry pool (credits 1, .5, .3, 0; messages of '
-        'different and equal lengths; a tuple-valued expect; alternatives matching the same input) x wrong_msg {"", "W"} x '
+        'different and equal lengths; a tuple-valued expect; alternatives matching the same input) x wrong_msg {"", "W", a long one} x '
         'inputs; non-trivial = at least two alternatives in the tuple give different single-alternative results')
 EXPLANATION = 'states = distinct (kind, ordered tuple, wrong_msg, input) cases; transitions = real grader calls'
 ASSUMPTIONS = ['single-alternative graders (fresh, no wrong_msg) define what an input earns against one alternative',
@@ -53,6 +53,10 @@ KINDS = {
                    inputs=['[1,2]', '[3,4]', '[5,6]', '[0,0]', '[1,2,3]']),
     'singlelist': dict(make=lambda **kw: SingleListGrader(subgrader=StringGrader(), **kw),
                        expects=('a,b', 'c,d', 'e,f'), inputs=['b,a', 'c,d', 'e,f', 'z,z', 'a,z', 'c']),
+    # alternatives that mention different numbered-variable instances (each alternative needs its own samples)
+    'formula_numbered': dict(make=lambda **kw: FormulaGrader(variables=['x'], numbered_vars=['a'], **kw),
+                             expects=('a_{1}+x', 'a_{1}+a_{2}', 'a_{3}*x'),
+                             inputs=['x+a_{1}', 'a_{2}+a_{1}', 'x*a_{3}', 'a_{1}', 'a_{4}', 'a_{1}+']),
     # members of one expect tuple that earn DIFFERENT partial credit for the same input
     'singlelist3': dict(make=lambda **kw: SingleListGrader(subgrader=StringGrader(), **kw),
                         expects=('a,b,c', 'a,b,d', 'x,y,z'), inputs=['a,b,c', 'a,b,d', 'x,y,z', 'a,b,z', 'a,q,q', 'q,q,q']),
@@ -156,7 +160,7 @@ class Alternatives(Family):
         nontrivial = False
         # both wrong_msg settings inside one case ('W' first): a message leaking from one grader into the next is then
         # visible within the case and replayable
-        for wrong_msg in ('W', ''):
+        for wrong_msg in ('W', 'Wrong - please try again', ''):
             o, nt, v, c = self.check_one(tup, wrong_msg)
             calls += c
             nontrivial = nontrivial or nt
@@ -206,7 +210,7 @@ class Alternatives(Family):
 
 def families(tier):
     fams = [Alternatives(k) for k in ('string', 'table', 'formula', 'numerical', 'matrix', 'singlelist', 'singlelist3',
-                                      'matrix_entry', 'matrix_suppressed')]
+                                      'matrix_entry', 'matrix_suppressed', 'formula_numbered')]
     fams += [Alternatives(k, 'ListGrader') for k in ('string', 'formula', 'singlelist')]
     fams += [Alternatives(k, 'SingleListGrader') for k in ('string', 'numerical')]
     return fams
